@@ -472,7 +472,7 @@ def stream_flag(dev):
     return int(ev.flag if hasattr(ev, "flag") else ev.is_set())
 
 
-REAL_LIMIT = float(os.environ.get("VERIF_DUMMY_REAL_LIMIT_S", "150"))
+REAL_LIMIT = float(os.environ.get("VERIF_DUMMY_REAL_LIMIT_S", "600"))
 
 
 def run_history(defs, ops, max_idle=200000):
